@@ -233,6 +233,23 @@ def gen(rng, nm, na):
         c["n_inc"] = k2 + int((2 * Tq + 8) / dtq) + 10
         cases.append(c)
     for q in range(max(2, (nm + na) // 25)):
+        # targeted: ICT-based control with an ICT network in which the microgrid's sensors have no node at all (the controller has
+        # to fall back on inspection for them, which costs the manual time); a fault on a microgrid line
+        from . import c06
+        while True:
+            c = ctl.gen_scenario(rng, max_lines=3, ctrl="main", nfeed=1)
+            if c["spec"].get("mg"):
+                break
+        c["spec"]["mg"]["n"] = rng.choice([2, 3]); c["spec"]["mg"]["discon"] = rng.random() < 0.5
+        c["spec"]["ctrl"].pop("nodev", None)
+        ict = c06.fallible_ict(rng, c["spec"])
+        ict["attach"] = {nm: v for nm, v in ict["attach"].items() if not nm.startswith("SML")}
+        c["spec"]["ctrl"]["ict"] = ict
+        if F(c["spec"]["ctrl"]["T"]) == 0:
+            c["spec"]["ctrl"]["T"] = "1"
+        c["faults"] = {str(rng.randint(1, 3)): [[f"ML{rng.randrange(c['spec']['mg']['n'])}", str(rng.choice([F(2), F(3)]))]]}
+        cases.append(c)
+    for q in range(max(2, (nm + na) // 25)):
         # targeted: ICT-based control, the section of the microgrid's connecting line is partly instrumented (the connecting line has a
         # sensor, an inner line without switch has none); a fault on the sensor-less line
         while True:
